@@ -837,6 +837,7 @@ func run(c *core.Ctx) {
 		perKind[s.K]++
 	}
 	c.Bound("shapes_per_kind", perKind)
+	c.Bound("scaling_factors", sigmaLadder)
 
 	ladderSel, nLadder := ladderSelection(shapes, c.Thorough())
 	c.Bound("ladder_shapes", nLadder)
@@ -856,6 +857,7 @@ func run(c *core.Ctx) {
 			return
 		}
 		k.shape(s, L)
+		k.scaling(s, L)
 		if ladderSel[idx-1] {
 			k.ladder(s)
 		}
@@ -973,6 +975,8 @@ func replay(c *core.Ctx) {
 		k.shape(*cs.Shape, L)
 	case "ladder":
 		k.ladder(*cs.Shape)
+	case "scaling":
+		k.scaling(*cs.Shape, L)
 	case "op":
 		k.op(cs.Op, cs.Args, L)
 	case "translate":
